@@ -15,3 +15,18 @@ STATEX_ASSUME = [
     "the delivery menu is a coverage strategy (quorum-directed enabling sets + bounded noise); every offered event is executed on the real code",
     "rounds above R, values outside the alphabet and non-canonical quorum subsets for n>=5 are outside the bound",
 ]
+
+
+def splice_qbft(src, out):
+    """Insert the state-snapshot call at the top of qbft.Run's event loop (anchor: the comment + `for {`)."""
+    import os
+    s = open(src).read()
+    anchor = "\t// Handle events until cancelled.\n\tfor {\n"
+    if s.count(anchor) != 1:
+        return None
+    call = ("\t\tverifSnapshot(ctx, process, round, any(inputValue), any(ppjCache), preparedRound, any(preparedValue), compareFailureRound,\n"
+            "\t\t\tany(preparedJustification), any(qCommit), any(qCommitValue), any(buffer), dedupRules, decidedResends, timerChan != nil, inputValueCh != nil)\n")
+    s = s.replace(anchor, anchor + call)
+    os.makedirs(os.path.dirname(out), exist_ok=True)
+    open(out, "w").write(s)
+    return out
